@@ -786,6 +786,42 @@ fn main() {
         }
     });
 
+    // (4) safety contracts at the call sites: with the hooks on, `StrainsVec::transmute_into_vec` checks "no zero in the list"
+    // and `StrainsEntry::new_value` "positive" on every call; the enumeration supplies the inputs (slider-heavy prefixes make
+    // zero strains), a broken promise panics inside the case
+    {
+        let mut opts = vh::uni::UniOpts::new(ctx.pick(4, 5));
+        opts.kinds_std = vec![Kind::Circle, Kind::Slider2, Kind::Spinner(600)];
+        opts.kinds_mania = vec![Kind::Circle, Kind::Hold(300)];
+        opts.gaps = vec![0, 150];
+        opts.poss = vec![PosK::Same, PosK::Far];
+        opts.mania_cols = vec![0, 2];
+        opts.tag = "/unsafe-contracts".into();
+        for u in opts.build() {
+            ctx.universe(&u.name, u.total, |idx, l| {
+                let (spec, map) = u.decode(idx);
+                u.sample(l, idx, &spec, "difficulty, strains, gradual walk under no mod and HR+DT");
+                l.states(1);
+                if !map.hit_objects.is_empty() {
+                    l.nontrivial();
+                }
+                for d in [Difficulty::new(), Difficulty::new().mods(80u32)] {
+                    let r = std::panic::catch_unwind(std::panic::AssertUnwindSafe(|| {
+                        let a = api::difficulty(&d, &map, u.cfg.dst).expect("convertible");
+                        let s = api::strains(&d, &map, u.cfg.dst).expect("convertible");
+                        let g = api::gradual(d.clone(), &map, u.cfg.dst).expect("convertible").count();
+                        std::hint::black_box((a, s, g));
+                    }));
+                    l.checked(3);
+                    if r.is_err() {
+                        l.violation("unsafe_contract_or_panic", || format!("cfg={:?}: a calculation panicked (with the hooks on, a broken safety contract of an unsafe fn panics)\nspec={}\n--- .osu ---\n{}", u.cfg, spec.describe(), spec.text()));
+                        return;
+                    }
+                }
+            });
+        }
+    }
+
     // Miri verdicts
     for h in miri_handles {
         match h.join() {
